@@ -1,0 +1,26 @@
+//go:build verif
+
+package tokenizer
+
+// Machine-checked contracts for package tokenizer (read by /verif/govc; this
+// file contains comments only and is compiled only with build tag verif).
+//
+// okTok(t, s): the token's offset and text denote a non-empty piece of s.
+//
+//@ spec okTok(t *token, s string) bool = t != nil && 0 <= t.Offset && len(t.Text) > 0 && t.Offset + len(t.Text) <= len(s) && t.Text == s[t.Offset : t.Offset+len(t.Text)]
+//@ spec tokEnd(t *token) int = t.Offset + len(t.Text)
+//@
+//@ func newToken
+//@   ensures fresh(result) && result.Offset == -1 && result.Text == ""
+//@   modifies nothing
+//@   props C17
+//@
+//@ func Tokenize
+//@   ensures forall j int :: 0 <= j && j < len(toks) ==> okTok(toks[j], s)
+//@   ensures forall j int, k int :: 0 <= j && j < k && k < len(toks) ==> tokEnd(toks[j]) <= toks[k].Offset
+//@   modifies nothing
+//@   loop 1 invariant 0 <= i && i <= len(s) && (toks == nil || fresh(toks))
+//@   loop 1 invariant tok != nil && fresh(tok) && ((tok.Offset == -1 && tok.Text == "") || (0 <= tok.Offset && len(tok.Text) > 0 && tokEnd(tok) == i && tok.Text == s[tok.Offset:i]))
+//@   loop 1 invariant forall j int :: 0 <= j && j < len(toks) ==> okTok(toks[j], s) && toks[j] != tok && tokEnd(toks[j]) <= i && (tok.Offset >= 0 ==> tokEnd(toks[j]) <= tok.Offset)
+//@   loop 1 invariant forall j int, k int :: 0 <= j && j < k && k < len(toks) ==> tokEnd(toks[j]) <= toks[k].Offset
+//@   props C17
